@@ -60,6 +60,12 @@ DIRECTED = {
     "format_cleared_before_convert": SRC22 + ["0 setfmt -1", "0 meta", "1 setfmt 4", "conv 0 1 4", "1 meta", "0 meta",
                                               "0 setfmt 1", "0 setfmtbad 2", "conv 0 1 5", "1 meta", "1 setfmt -1", "conv 1 0 1",
                                               "0 meta", "conv 0 0 10", "0 meta"],
+    # a two-sided sweep: the container takes any frequency through set_frequency / set_frequency_vector
+    # (negative, zero, unordered, repeated); a conversion carries the vector unchanged, in place and out of place
+    "two_sided_sweep": ["0 init 1 2 2 3", "0 setfv 3 -2 0 2", "0 setmat 0 4 1,1 2,0 0,3 1,-1", "0 setmat 1 4 2,1 1,0 1,3 0,-1",
+                        "0 setmat 2 4 1,2 1,1 0,1 3,0", "1 init 4 2 2 3", "1 setfv 3 7 8 9", "conv 0 1 4", "1 getfv", "0 getfv",
+                        "conv 0 2 10", "2 getfv", "conv 0 0 5", "0 getfv", "0 setfreq 1 -5", "0 setfreq 2 -5", "conv 0 3 1",
+                        "3 getfv", "3 fmin", "3 fmax", "3 addfreq -1", "3 addfreq 0", "conv 3 1 1", "1 getfv"],
     # refused conversions leave a used destination and the source as they are
     "refused_keeps_destination": SRC22 + BIGDST + ["conv 0 1 11", "1 meta", "conv 0 1 -1", "1 getmat 2", "conv 0 1 0", "1 getfz0v 2",
                                                    "0 settype 0", "0 resize 0 2 3 2", "conv 0 1 4", "1 getmat 1", "0 meta",
@@ -80,7 +86,7 @@ def dest_setup(rng, inplace):
     ops = ["1 init %d %d %d %d" % (rng.choice((1, 4, 5)), n, n, f)]
     for fi in range(f):
         ops.append("1 setmat %d %s" % (fi, datagen.vlist(rng, n * n, datagen.val)))
-    ops.append("1 setfv %s" % datagen.vlist(rng, f, lambda g: str(g.randint(1, 9))))
+    ops.append("1 setfv %s" % datagen.fvals(rng, f))
     if rng.random() < 0.7:
         ops.append("1 setfz0v %d %s" % (rng.randrange(f), datagen.vlist(rng, n, datagen.zval)))
     else:
@@ -116,7 +122,7 @@ def pair_scripts(rng, quick):
                         ops.append("0 init %d %d %d %d" % (frm, r, n, f))
                         for fi in range(f):
                             ops.append("0 setmat %d %s" % (fi, datagen.vlist(rng, r * n, datagen.val)))
-                        ops.append("0 setfv %s" % datagen.vlist(rng, f, lambda g: str(g.randint(1, 9))))
+                        ops.append("0 setfv %s" % datagen.fvals(rng, f))
                         ops.append("0 setz0v %s" % datagen.vlist(rng, max(r, n), datagen.zval))
                         if perf:
                             for fi in range(f):
@@ -162,7 +168,7 @@ def twin_scripts(rng, count):
         src = ["0 init %d %d %d %d" % (frm, r, n, max(f, 1))]
         for fi in range(max(f, 1)):
             src.append("0 setmat %d %s" % (fi, datagen.vlist(rng, r * n, datagen.val)))
-        src.append("0 setfv %s" % datagen.vlist(rng, max(f, 1), lambda g: str(g.randint(1, 9))))
+        src.append("0 setfv %s" % datagen.fvals(rng, max(f, 1)))
         src.append("0 setz0v %s" % datagen.vlist(rng, max(r, n), datagen.zval))
         if rng.random() < 0.6:
             for fi in range(max(f, 1)):
